@@ -38,8 +38,9 @@ type Config struct {
 }
 
 type InstrumentSpec struct {
-	Dir   string   `json:"dir"`
-	Files []string `json:"files"` // optional subset (base names); empty = every non-test .go file
+	Dir     string            `json:"dir"`
+	Files   []string          `json:"files"`   // optional subset (base names); empty = every non-test .go file
+	Imports map[string]string `json:"imports"` // import redirections (default: sync, sync/atomic, time)
 }
 
 var (
